@@ -9,6 +9,8 @@ import (
 	"github.com/vkngwrapper/arsenal/memutils/defrag"
 	"github.com/vkngwrapper/arsenal/memutils/metadata"
 	"github.com/vkngwrapper/arsenal/vam/internal/vulkan"
+	"github.com/vkngwrapper/core/v3/core1_0"
+	"github.com/vkngwrapper/extensions/v3/library"
 )
 
 // This file is only compiled with the `verif` build tag. It exposes unexported pieces of
@@ -258,4 +260,67 @@ func VerifAllocationInfo(alloc *Allocation) VerifAllocation {
 // VerifDefragState returns the unexported progress state of a DefragmentationContext.
 func VerifDefragState(c *DefragmentationContext) (blockListProgress int, contexts int, stats defrag.DefragmentationStats) {
 	return c.blockListProgress, len(c.context), c.stats
+}
+
+// VerifFindMemoryPreferences exposes findMemoryPreferences: the (required, preferred, notPreferred)
+// memory property flags the allocator derives from an AllocationCreateInfo and an optional
+// buffer/image usage (nil = none), as raw 32-bit masks.
+func VerifFindMemoryPreferences(a *Allocator, o AllocationCreateInfo, bufferOrImageUsage *uint32) (required, preferred, notPreferred uint32) {
+	r, p, n := a.findMemoryPreferences(&o, bufferOrImageUsage)
+	return uint32(r), uint32(p), uint32(n)
+}
+
+// ---------------------------------------------------------------------------------------------
+// Re-exports used by the device-level harness (/verif/harness/cmd/devh): the mapping state machine
+// (internal/vulkan.SynchronizedMemory) and the budget counters (internal/vulkan.DeviceMemoryProperties)
+// are driven directly, without an Allocator around them.
+// ---------------------------------------------------------------------------------------------
+
+// VerifSyncMemory is internal/vulkan.SynchronizedMemory (its exported methods are callable through the alias).
+type VerifSyncMemory = vulkan.SynchronizedMemory
+
+// VerifDeviceMemory is internal/vulkan.DeviceMemoryProperties.
+type VerifDeviceMemory = vulkan.DeviceMemoryProperties
+
+// VerifBudget is internal/vulkan.Budget.
+type VerifBudget = vulkan.Budget
+
+// VerifMapDelay is the hysteresis window length of SynchronizedMemory.
+const VerifMapDelay = vulkan.MapDelay
+
+// VerifNewDeviceMemory builds a DeviceMemoryProperties exactly as vam.New does (extension data derived
+// from the driver, no memory callbacks, no external memory handle types).
+func VerifNewDeviceMemory(driver core1_0.CoreDeviceDriver, physicalDevice core1_0.PhysicalDevice, heapSizeLimits []int, useMutex bool) (*vulkan.DeviceMemoryProperties, error) {
+	ext := vulkan.NewExtensionData(driver, library.NewLibrary())
+	return vulkan.NewDeviceMemoryProperties(driver, useMutex, nil, nil, driver.Device(), physicalDevice, heapSizeLimits, nil, ext)
+}
+
+// VerifSyncMemState returns the unexported state of a SynchronizedMemory (read-only).
+func VerifSyncMemState(m *vulkan.SynchronizedMemory) (refs int, extra bool, mapped bool, delay int, status int) {
+	refs, extra, delay, status = verifSyncMemFields(m)
+	mapped = m != nil && m.MappedData() != nil
+	return
+}
+
+// VerifDeviceMemoryCounters returns the raw per-heap counters and the memory object count of a
+// DeviceMemoryProperties without going through HeapBudget (which may refetch the driver's budget).
+func VerifDeviceMemoryCounters(m *vulkan.DeviceMemoryProperties, heapIndex int) (blockCount, allocationCount, blockBytes, allocationBytes int, memoryCount int) {
+	v := reflect.ValueOf(m).Elem()
+	blockCount = int(v.FieldByName("blockCount").Index(heapIndex).FieldByName("v").Int())
+	allocationCount = int(v.FieldByName("allocationCount").Index(heapIndex).FieldByName("v").Int())
+	blockBytes = int(v.FieldByName("blockBytes").Index(heapIndex).FieldByName("v").Int())
+	allocationBytes = int(v.FieldByName("allocationBytes").Index(heapIndex).FieldByName("v").Int())
+	memoryCount = int(m.AllocationCount())
+	return
+}
+
+// VerifDeviceMemoryBudgetState returns the cached VK_EXT_memory_budget snapshot of a heap and the
+// number of operations counted since the last fetch.
+func VerifDeviceMemoryBudgetState(m *vulkan.DeviceMemoryProperties, heapIndex int) (operations int, vulkanUsage, vulkanBudget, blockBytesAtFetch int) {
+	v := reflect.ValueOf(m).Elem()
+	operations = int(v.FieldByName("operationsSinceBudgetFetch").FieldByName("v").Uint())
+	vulkanUsage = int(v.FieldByName("vulkanUsage").Index(heapIndex).Int())
+	vulkanBudget = int(v.FieldByName("vulkanBudget").Index(heapIndex).Int())
+	blockBytesAtFetch = int(v.FieldByName("blockBytesAtBudgetFetch").Index(heapIndex).Int())
+	return
 }
